@@ -278,6 +278,14 @@ func vecFloats(v ad.ConstVector) []float64 {
 var routines = []string{"bfgs", "rprop", "gradientDescent", "adam", "newton.RunCrit", "newton.RunMin", "newton.RunRoot", "lineSearch"}
 
 func Run(c *core.Ctx) {
+	switch c.Scenario {
+	case "saga", "saga-faults":
+		RunSaga(c)
+		return
+	case "blahut", "blahut-faults":
+		RunBlahut(c)
+		return
+	}
 	t := c.Tape
 	faulty := c.Scenario == "faults"
 	e := &env{c: c, faults: map[int]string{}, lastFault: -1}
@@ -667,6 +675,10 @@ func init() {
 		Scenarios: []core.Scenario{
 			{Name: "clean", Weight: 1},
 			{Name: "faults", Weight: 1, Faulty: true},
+			{Name: "saga", Weight: 1},
+			{Name: "saga-faults", Weight: 1, Faulty: true},
+			{Name: "blahut", Weight: 1},
+			{Name: "blahut-faults", Weight: 1, Faulty: true},
 		},
 		Run:      Run,
 		Probes: []core.FindingProbe{
@@ -678,14 +690,15 @@ func init() {
 			}},
 		},
 		StepUnit: "callbacks into the environment (objective evaluations, constraint evaluations, hook calls)",
-		Rule: "one run = one routine (BFGS, Rprop, gradient descent, Adam, Newton crit / min / root, line search) on one objective drawn from families with closed-form value, gradient, Hessian and optimum (SPD quadratics n=1..4 with condition number <= 100 built from drawn eigenvalues and rotations, Rosenbrock type, separable quartic, L2-regularised logistic loss, polynomial systems with planted roots), drawn start, epsilon, step sizes, eta, Hessian modification, optional constraint predicate (box / half space that holds at x0). The environment is the objective (derivatives handed back by the chain rule on the seeds stored in x), the constraint and the hook; in the fault scenario it injects up to two transient evaluation faults (error, NaN value, NaN gradient, biased to the first evaluations, i.e. inside the first line searches), a hook cancellation and small caps. Oracles over the recorded history: stopping condition re-evaluated in closed form at the returned point, distance to the minimiser on quadratics, constraint predicate at the returned point, hook arguments vs closed form at the hook's x, strong Wolfe conditions, x0 unchanged. Non-trivial = at least 3 evaluations. Distinct = (routine, exit reason, dimension, fault pattern, constraint kind, hook, family).",
+		Rule: "scenarios clean / faults: one run = one routine (BFGS, Rprop, gradient descent, Adam, Newton crit / min / root, line search) on one objective drawn from families with closed-form value, gradient, Hessian and optimum (SPD quadratics n=1..4 with condition number <= 100 built from drawn eigenvalues and rotations, Rosenbrock type, separable quartic, L2-regularised logistic loss, polynomial systems with planted roots), drawn start, epsilon, step sizes, eta, Hessian modification, optional constraint predicate (box / half space that holds at x0). The environment is the objective (derivatives handed back by the chain rule on the seeds stored in x), the constraint and the hook; in the fault scenario it injects up to two transient evaluation faults (error, NaN value, NaN gradient, biased to the first evaluations, i.e. inside the first line searches), a hook cancellation and small caps. Oracles over the recorded history: stopping condition re-evaluated in closed form at the returned point, distance to the minimiser on quadratics, constraint predicate at the returned point, hook arguments vs closed form at the hook's x, strong Wolfe conditions, x0 unchanged. Scenarios saga / saga-faults: saga.Run with the four objective types (Objective1Dense, Objective2Dense, Objective1Sparse, Objective2Sparse) on sum-of-squares problems, regularisation none (an identity proximal operator owned by the environment) / Tikhonov / l1, drawn step size 1/(3..6 L), epsilon, cap and Seed (SAGA's own sampling is seeded from the tape); faults: an evaluation that returns an error or NaN at a drawn call, hook cancellation, small caps; oracles: stated step criterion re-evaluated between the last published iterate and the returned point, distance to the analytic minimiser, hook arguments (relative step, lambda, epoch), an objective error is returned and never swallowed, no NaN point with err == nil. Scenarios blahut / blahut-faults: blahut.Run / RunNaive on drawn channels (2..4 inputs and outputs, zero entries for Run), drawn full-support start and step count, optional hook cancellation. Non-trivial = at least 3 evaluations. Distinct = (routine, exit reason, dimension, fault pattern, constraint kind, hook, family).",
 		Assumptions: []string{
 			"a run that ends with an error, a panic, a hook stop or at its iteration cap is not judged by the stopping-condition oracle",
 			"slack on epsilon: 1e-6 relative + 1e-12; hook arguments compared to 1e-9 relative",
-			"SAGA and Blahut-Arimoto are not driven by this engine (SAGA's stopping rule is a step criterion between internal epochs, Blahut has no stopping rule besides its step count)",
+			"SAGA: the minimiser is judged on strictly convex least-squares problems (no or Tikhonov regularisation) with at least d+8 components and no zero data row, after at least four epochs, with the tolerance 1e6 * (largest of the last five relative steps) * |x| / (n*gamma*mu) (SAGA's stale-gradient table makes the distance lag behind the step; the factor is three decades above the largest ratio seen in 1e6 calibration runs); the l1-regularised problem is not a quadratic and only its stopping rule, hook and error reporting are judged",
+			"Blahut-Arimoto has no stopping rule (it performs the steps it is given): judged are Arimoto's bound C - I(p_k) <= max_i ln(1/p0_i)/k against a reference capacity computed by the environment, the hook's J against the lower bound recomputed from the previous iterate, monotonicity of J, J <= C, iterates being distributions, number of steps performed; RunNaive only on strictly positive channels (it does not implement 0 log 0 = 0)",
 			"termination is not judged here (C20); a run aborted by the step clock is counted",
 		},
-		RealCode:     []string{"algorithm/bfgs, rprop, gradientDescent, adam, newton, lineSearch (and what they call: matrixInverse, cholesky, qrAlgorithm)"},
+		RealCode:     []string{"algorithm/bfgs, rprop, gradientDescent, adam, newton, lineSearch (and what they call: matrixInverse, cholesky, qrAlgorithm), algorithm/saga (dense and sparse variants, proximal operators, EvalStopping), algorithm/blahut (Run, RunNaive)"},
 		Stubs:        []string{"objective, constraint predicate, hook (the environment)"},
 		Caps:         map[string]int{"dimension": 4, "iteration_cap": 2000, "faults_per_run": 2},
 		QuickRuns:    120000,
